@@ -363,6 +363,44 @@ func (w *c15World) honestPower(votes []cometabci.ExtendedVoteInfo, height int64,
 	return perPair, total, values
 }
 
+// safety is the soundness side of C15 for one update: every price that changed is backed by a
+// two-thirds quorum of validly signed votes, carries a value some such vote supplied, moves its
+// timestamp forward, and came from an executor while the oracle is enabled.
+func (w *c15World) safety(before, after map[string]c15Price, r henv.Result, sender string, perPair map[string]int64, total int64, values map[string]map[string]bool, height int64) (changed int, err error) {
+	for _, p := range w.pairs {
+		if before[p] == after[p] {
+			continue
+		}
+		changed++
+		if !r.OK() {
+			return changed, fmt.Errorf("price of %s changed although the update failed", p)
+		}
+		if sender != w.exec.Str {
+			return changed, fmt.Errorf("price of %s changed by an update that was not sent by a bridge executor", p)
+		}
+		if !w.enabled {
+			return changed, fmt.Errorf("price of %s changed while the bridge has the oracle disabled", p)
+		}
+		if 3*perPair[p] < 2*total {
+			return changed, fmt.Errorf("price of %s changed with validly signed votes of only %d out of %d power (< 2/3)", p, perPair[p], total)
+		}
+		newVal := after[p].price
+		if p == c15TsPair {
+			newVal = fmt.Sprint(after[p].ts)
+		}
+		if !values[p][newVal] {
+			return changed, fmt.Errorf("%s was set to %s, a value that no validly signed vote carries (repeated, unsigned or foreign entries must contribute nothing)", p, newVal)
+		}
+		if before[p].ok && after[p].ts <= before[p].ts {
+			return changed, fmt.Errorf("timestamp of %s went from %d to %d (must strictly increase)", p, before[p].ts, after[p].ts)
+		}
+		if height < w.storedHeight {
+			return changed, fmt.Errorf("price of %s changed by an update at height %d older than the recorded validator set (%d)", p, height, w.storedHeight)
+		}
+	}
+	return changed, nil
+}
+
 var c15Kinds = []weighted{{"honest", 30}, {"subset", 3}, {"missing", 3}, {"duplicate", 2}, {"dup-forged", 2}, {"odd-flag-forged", 2}, {"other-key", 1}, {"wrong-chain", 1}, {"height+1", 1}, {"height-1", 1}, {"round+1", 1},
 	{"altered", 1}, {"unknown-validator", 2}, {"nil-vote", 2}, {"absent", 2}, {"nil-with-payload", 1}, {"no-signature", 1}, {"oversized", 1}, {"unknown-pair", 1}, {"no-timestamp", 1}}
 
@@ -484,37 +522,9 @@ func TestC15Rapid(t *testing.T) {
 			if !r.OK() && digest != w.l2.Digest() {
 				fail("a failed oracle update changed state")
 			}
-			changed := 0
-			for _, p := range w.pairs {
-				if before[p] == after[p] {
-					continue
-				}
-				changed++
-				if !r.OK() {
-					fail("price of %s changed although the update failed", p)
-				}
-				if sender != w.exec.Str {
-					fail("price of %s changed by an update that was not sent by a bridge executor", p)
-				}
-				if !w.enabled {
-					fail("price of %s changed while the bridge has the oracle disabled", p)
-				}
-				if 3*perPair[p] < 2*total {
-					fail("price of %s changed with validly signed votes of only %d out of %d power (< 2/3)", p, perPair[p], total)
-				}
-				newVal := after[p].price
-				if p == c15TsPair {
-					newVal = fmt.Sprint(after[p].ts)
-				}
-				if !values[p][newVal] {
-					fail("%s was set to %s, a value that no validly signed vote carries (repeated, unsigned or foreign entries must contribute nothing)", p, newVal)
-				}
-				if before[p].ok && after[p].ts <= before[p].ts {
-					fail("timestamp of %s went from %d to %d (must strictly increase)", p, before[p].ts, after[p].ts)
-				}
-				if height < w.storedHeight {
-					fail("price of %s changed by an update at height %d older than the recorded validator set (%d)", p, height, w.storedHeight)
-				}
+			changed, serr := w.safety(before, after, r, sender, perPair, total, values, height)
+			if serr != nil {
+				fail("%v", serr)
 			}
 			// liveness side: a fully honest, fresh, sufficiently supported update must be applied
 			allHonest := forged == 0
